@@ -101,28 +101,37 @@ class AsyncHTTP2Connection(AsyncConnectionInterface):
 
         async with self._init_lock:
             if not self._sent_connection_init:
+                if self._state == HTTPConnectionState.CLOSED:
+                    # The request that was initialising the connection failed
+                    # while we were waiting for it. Nothing has been sent for
+                    # this request, so it can be retried on another connection.
+                    self._request_count -= 1
+                    raise ConnectionNotAvailable()
+
                 try:
                     kwargs = {"request": request}
                     async with Trace("send_connection_init", logger, request, kwargs):
                         await self._send_connection_init(**kwargs)
+
+                    # Initially start with just 1 until the remote server provides
+                    # its max_concurrent_streams value
+                    self._max_streams = 1
+
+                    local_settings_max_streams = (
+                        self._h2_state.local_settings.max_concurrent_streams
+                    )
+                    self._max_streams_semaphore = AsyncSemaphore(
+                        local_settings_max_streams
+                    )
+
+                    for _ in range(local_settings_max_streams - self._max_streams):
+                        await self._max_streams_semaphore.acquire()
                 except BaseException as exc:
                     with AsyncShieldCancellation():
                         await self.aclose()
                     raise exc
 
                 self._sent_connection_init = True
-
-                # Initially start with just 1 until the remote server provides
-                # its max_concurrent_streams value
-                self._max_streams = 1
-
-                local_settings_max_streams = (
-                    self._h2_state.local_settings.max_concurrent_streams
-                )
-                self._max_streams_semaphore = AsyncSemaphore(local_settings_max_streams)
-
-                for _ in range(local_settings_max_streams - self._max_streams):
-                    await self._max_streams_semaphore.acquire()
 
         await self._max_streams_semaphore.acquire()
 
